@@ -110,7 +110,10 @@ func runRouterRT(t *testing.T, line string) string {
 	senders, _ := strconv.Atoi(head[2])
 	burst, _ := strconv.Atoi(head[3])
 	gap, _ := strconv.Atoi(head[4])
-	type busy struct{ at, wait, ctrl int }
+	type busy struct {
+		at, wait, ctrl int
+		lost bool // a routing-lost indication (wait = count) instead of a busy one
+	}
 	var bs []busy
 	if len(parts) == 2 {
 		for _, e := range strings.Split(parts[1], ";") {
@@ -119,7 +122,12 @@ func runRouterRT(t *testing.T, line string) string {
 				continue
 			}
 			var b busy
-			if _, err := fmt.Sscanf(e, "busy@%d:%d:%d", &b.at, &b.wait, &b.ctrl); err != nil {
+			if strings.HasPrefix(e, "lost@") {
+				b.lost = true
+				if _, err := fmt.Sscanf(e, "lost@%d:%d", &b.at, &b.wait); err != nil {
+					return "bad-script"
+				}
+			} else if _, err := fmt.Sscanf(e, "busy@%d:%d:%d", &b.at, &b.wait, &b.ctrl); err != nil {
 				return "bad-script"
 			}
 			bs = append(bs, b)
@@ -152,9 +160,23 @@ func runRouterRT(t *testing.T, line string) string {
 			if d := time.Until(sock.start.Add(time.Duration(b.at) * time.Millisecond)); d > 0 {
 				time.Sleep(d)
 			}
+			var fr knxnet.Service = &knxnet.RoutingBusy{WaitTime: time.Duration(b.wait) * time.Millisecond, Control: uint16(b.ctrl)}
+			if b.lost {
+				fr = &knxnet.RoutingLost{Count: uint16(b.wait)}
+			}
+			if d, ok := viaWire(fr); ok {
+				fr = d
+			} else {
+				sock.add(fmt.Sprintf("decoder-dropped %d", sock.us()))
+				continue
+			}
 			select {
-			case sock.inbound <- &knxnet.RoutingBusy{WaitTime: time.Duration(b.wait) * time.Millisecond, Control: uint16(b.ctrl)}:
+			case sock.inbound <- fr:
 				// handed over: the serve loop has taken the indication in
+				if b.lost {
+					sock.add(fmt.Sprintf("lost %d %d", sock.us(), b.wait))
+					break
+				}
 				sock.add(fmt.Sprintf("busy %d %d %d %d", sock.us(), b.wait, b.ctrl, atomic.LoadInt64(&inside)))
 			case <-time.After(8 * time.Second):
 				sock.add(fmt.Sprintf("busy-not-taken %d", sock.us()))
